@@ -5,13 +5,16 @@ namespace Verif.Drv.StdioExit
 open Verif.Model.StdioExit Verif.Gen.StdioExit
 -- DRIVER: stdio_exit
 
-/-- `{"m":"stdio_exit","entry":"client"|"init","exc":{"kind":"error","msg":…} | {"kind":"cancelled"} |
-     {"kind":"group","members":[{"cancelled":bool,"msg":…}]}}` -> `{"propagates":bool}` -/
+/-- `{"m":"stdio_exit","entry":"client"|"init","exc":{"kind":"error","mro":[class names],"msg":…} | {"kind":"cancelled"} |
+     {"kind":"group","members":[{"cancelled":bool,"mro":[…],"msg":…}]}}` -> `{"propagates":bool}`
+   (`mro` absent = `["Exception","BaseException","object"]`) -/
 def handle (j : Json) : Except String Json := do
   let entry ← j.getObjValAs? String "entry"
   let (single, grp) := if entry == "init" then (initSingle, initGroup) else (clientSingle, clientGroup)
   let e ← j.getObjVal? "exc"
   let kind ← e.getObjValAs? String "kind"
+  let mroOf (m : Json) : List String :=
+    (m.getObjValAs? (Array String) "mro").toOption.map Array.toList |>.getD ["Exception", "BaseException", "object"]
   let exc ← match kind with
     | "cancelled" => pure Exc.cancelled
     | "group" => do
@@ -19,8 +22,8 @@ def handle (j : Json) : Except String Json := do
       let l ← ms.toList.mapM (fun m => do
         let c := (m.getObjValAs? Bool "cancelled").toOption.getD false
         let t := (m.getObjValAs? String "msg").toOption.getD ""
-        pure (c, t.toList))
+        pure (c, mroOf m, t.toList))
       pure (Exc.group l)
-    | _ => pure (Exc.error ((e.getObjValAs? String "msg").toOption.getD "").toList)
+    | _ => pure (Exc.error (mroOf e) ((e.getObjValAs? String "msg").toOption.getD "").toList)
   return Json.mkObj [("propagates", Json.bool (propagates single grp exc))]
 end Verif.Drv.StdioExit
